@@ -285,8 +285,21 @@ def _match(p: dict, kind: str, name: list) -> bool:
     return p["kind"] == kind and (name == [42] or uncps(p["name"]).lower() == uncps(name).lower())
 
 
+def _bad(e: dict) -> bool:
+    return e["kind"] in ("header", "cookie") and e["v"]["t"] == "str" and any(c < 32 or c == 127 or c > 255 for c in e["v"]["v"])
+
+
+def demanded(op: dict) -> list[dict]:
+    """Mirror of Examples!Demanded: beside an unsendable example only the sendable examples of the same parameter."""
+    every = all_examples(op)
+    bad = [(e["kind"], e["name"]) for e in every if _bad(e)]
+    if not bad:
+        return every
+    return [e for e in every if not _bad(e) and (e["kind"], e["name"]) in bad]
+
+
 def dropped(op: dict, obs: dict) -> list[dict]:
-    return [e for e in all_examples(op)
+    return [e for e in (demanded(op) if obs["status"] == "error" else all_examples(op))
             if not any(_match(p, e["kind"], e["name"]) and _at(p["v"], e["path"], e["v"], e["kind"], obs["mode"])
                        for r in obs["sent"] for p in r["parts"])]
 
@@ -296,8 +309,8 @@ def complaints_without_fill(op: dict, obs: dict, unsendable: bool) -> set[str]:
         return {"crash"}
     if not all_examples(op):
         return ({"sent-without-examples"} if obs["sent"] else set()) | ({"not-reported-skipped"} if obs["status"] != "skipped" else set())
-    if obs["status"] == "error":
-        return set() if unsendable else {"error-for-sendable-examples"}
+    if obs["status"] == "error" and not unsendable:
+        return {"error-for-sendable-examples"}
     out = set()
     if dropped(op, obs):
         out.add("dropped")
@@ -311,6 +324,17 @@ def complaints_without_fill(op: dict, obs: dict, unsendable: bool) -> set[str]:
     return out
 
 
+def undecided_beside_unsendable(op: dict, obs: dict) -> int:
+    """Examples of OTHER parts that were not sent next to an unsendable example (not demanded, counted)."""
+    if obs["status"] != "error":
+        return 0
+    want = demanded(op)
+    rest = [e for e in all_examples(op) if not _bad(e) and e not in want]
+    probe = dict(obs, status="ok")
+    missing = dropped(op, probe)
+    return sum(1 for e in rest if e in missing)
+
+
 def signature(op: dict, obs: dict, complaint: str, any_arith: set | None = None) -> str:
     """placement kind x combination arithmetic of the dropped example (Appendix E); other complaints: the slice.
     `any_arith`: placement keys whose example is dropped even when it is the only pool - the arithmetic is then not a feature."""
@@ -321,6 +345,8 @@ def signature(op: dict, obs: dict, complaint: str, any_arith: set | None = None)
             pools = [sum(len(x["vals"]) for x in p["ex"]) for p in op["params"]] + [sum(len(x["vals"]) for x in b["ex"]) for b in op["bodies"]]
             others = sum(1 for n in pools if n) - 1
             arith = "alone" if others == 0 else ("smaller-pool" if e["pool"] < max(pools) else "largest-pool")
+            if any(_bad(x) for x in all_examples(op)):
+                arith = "beside-unsendable"
             key = "%s/%s:%s" % (e["place"], e["form"], "body" if e["kind"] == "body" else "parameter")
             dia = "swagger2" if op["dialect"] == "2.0" else "openapi3"
             if any_arith is not None and (key, dia) in any_arith:
@@ -440,7 +466,8 @@ def run(ctx: Ctx) -> Outcome:
         "rule": "every operation descriptor reachable in Examples.tla under %s, each observed through add_examples (all) and through the "
                 "engine + loopback server log (a per-slice sample of %d); non-trivial = the document carries at least one example" % (cfg, quota),
         "exhaustive": True,
-        "skipped_outside_fragment": 0,
+        "skipped_outside_fragment": {"examples_of_other_parts_not_demanded_beside_an_unsendable_example":
+                                     sum(undecided_beside_unsendable(ops[i], o) for i, o in records)},
         "constants": {"cfg": cfg, "slices": {k: len(v) for k, v in sorted(per_slice.items())}},
         "complaints": sum(len(v) for v in by_obs.values()),
         "tlc_enumeration_s": round(res.wall_s, 1), "fast_path_s": round(t_fast, 1), "wire_path_s": round(t_wire, 1),
